@@ -11,7 +11,7 @@ pub fn dense_limit(thorough: bool) -> usize {
     if thorough {
         4 * MIB
     } else {
-        256 * 1024
+        128 * 1024
     }
 }
 
@@ -27,18 +27,28 @@ pub fn hist_sizes(thorough: bool) -> Vec<usize> {
 /// The operation alphabet of the history enumerators.
 #[derive(Clone, Debug)]
 pub struct Alpha {
+    /// (size, align) of malloc
+    pub mallocs: Vec<(usize, usize)>,
+    /// (size, align) of calloc
+    pub callocs: Vec<(usize, usize)>,
+    /// new sizes of realloc
     pub sizes: Vec<usize>,
-    pub calloc_sizes: Vec<usize>,
-    pub calloc_aligns: Vec<usize>,
 }
 impl Alpha {
+    /// malloc(s, a) for a in {8, 64, 4096}, calloc(s, 8), realloc(_, s)
     pub fn new(sizes: &[usize]) -> Alpha {
-        Alpha { sizes: sizes.to_vec(), calloc_sizes: sizes.to_vec(), calloc_aligns: vec![8] }
+        let mut mallocs = Vec::new();
+        for &s in sizes {
+            for a in [8usize, 64, 4096] {
+                mallocs.push((s, a));
+            }
+        }
+        Alpha { mallocs, callocs: sizes.iter().map(|&s| (s, 8)).collect(), sizes: sizes.to_vec() }
     }
     pub fn describe(&self) -> String {
         format!(
-            "malloc(s,a) a in {{8,64,4096}}, calloc(s',a') s' in {:?} a' in {:?}, realloc(live slot, s), free(live slot), s in {:?}",
-            self.calloc_sizes, self.calloc_aligns, self.sizes
+            "malloc(size,align) in {:?}, calloc(size,align) in {:?}, realloc(live slot, s) s in {:?}, free(live slot)",
+            self.mallocs, self.callocs, self.sizes
         )
     }
 }
@@ -48,15 +58,11 @@ pub fn next_ops(live: &[bool; 3], al: &Alpha, out: &mut Vec<Op>) {
     out.clear();
     let nlive = live.iter().filter(|x| **x).count();
     if nlive < 3 {
-        for &s in &al.sizes {
-            for a in [8usize, 64, 4096] {
-                out.push(Op::Malloc { size: s, align: a });
-            }
+        for &(s, a) in &al.mallocs {
+            out.push(Op::Malloc { size: s, align: a });
         }
-        for &s in &al.calloc_sizes {
-            for &a in &al.calloc_aligns {
-                out.push(Op::Calloc { size: s, align: a });
-            }
+        for &(s, a) in &al.callocs {
+            out.push(Op::Calloc { size: s, align: a });
         }
     }
     for (slot, l) in live.iter().enumerate() {
@@ -129,13 +135,15 @@ pub fn hist(args: &Args) -> Report {
     let th = args.thorough;
     let mut al = Alpha::new(&hist_sizes(th));
     if th {
-        al.calloc_aligns = vec![8, 64, 4096];
+        al.callocs = al.mallocs.clone();
     }
     let depth: usize = std::env::var("H_ALLOC_DEPTH").ok().and_then(|s| s.parse().ok()).unwrap_or(if th { 4 } else { 3 });
     // deeper over a reduced alphabet: sizes that reach the small bins, the tree bins, a fresh segment and the trim path
     let mut deep = Alpha::new(&[24, 1000, 70_000, 3 * MIB]);
     if !th {
-        deep.calloc_sizes = vec![24, 1000, 70_000]; // calloc(3 MiB) is covered by the full alphabet
+        // the 3 MiB calloc and the over-aligned 3 MiB malloc (whose realloc always copies 3 MiB) are covered by the full alphabet
+        deep.callocs.retain(|x| x.0 < MIB);
+        deep.mallocs.retain(|x| x.0 < MIB || x.1 == 8);
     }
     let deep_depth = depth + if th { 2 } else { 1 };
     let nsh = 64usize;
@@ -464,7 +472,10 @@ pub fn boundary_cases(thorough: bool) -> Vec<Case> {
                 if !thorough && s > MIB && !(a == 8 || a == 4096) {
                     continue;
                 }
-                for (_name, ops) in shapes(&seed.ops, s, a) {
+                for (name, ops) in shapes(&seed.ops, s, a) {
+                    if !thorough && s > 4 * MIB && matches!(name, "realloc-moving" | "three-then-free-order") {
+                        continue;
+                    }
                     v.push(Case {
                         phase: "boundary",
                         seed_name: seed.name.to_string(),
@@ -519,7 +530,7 @@ pub fn boundary(args: &Args) -> Report {
         seeds().len(),
         seeds().iter().map(|s| s.name).collect::<Vec<_>>(),
         if th { "-24,-16,-9,-8,-7,0,+8" } else { "-16,-8,0" },
-        if th { "" } else { " (sizes above 1 MiB: alignments 8 and 4096 only)" }
+        if th { "" } else { " (sizes above 1 MiB: alignments 8 and 4096 only; sizes above 4 MiB: the first four shapes only)" }
     );
     r.bound("seeds", seeds().len());
     r.bound("sizes", n_sizes);
@@ -563,7 +574,10 @@ pub fn placement(args: &Args) -> Report {
     let th = args.thorough;
     let dl = dense_limit(th);
     let sizes: Vec<usize> = if th { vec![1000, 65_000, 70_000, MIB, 3 * MIB] } else { vec![1000, 70_000, 3 * MIB] };
-    let al = Alpha::new(&sizes);
+    let mut al = Alpha::new(&sizes);
+    if !th {
+        al.callocs.retain(|x| x.0 < MIB);
+    }
     let depth = 3usize;
     let pre = prefixes(2, &al);
     let nsh = 64usize;
@@ -595,10 +609,11 @@ pub fn placement(args: &Args) -> Report {
     }
     let mut r = run_isolated(items, &args.out, "C03");
     r.rule = format!(
-        "every history of exactly {depth} operations (hist alphabet, sizes {sizes:?}, calloc align 8) that contains a request >= 60 000 bytes, under EVERY placement script: \
+        "every history of exactly {depth} operations over {} that contains a request >= 60 000 bytes, under EVERY placement script: \
          a script assigns one of the 5 policies (T top-down first fit, B directly below the lowest mapping, A directly above the highest, D below with a one-page gap, \
          U above with a one-page gap) to each mmap the run performs (5^n scripts for n mmaps, explored as a tree because n depends on the script); \
-         one case = (history, complete script), generated once"
+         one case = (history, complete script), generated once",
+        al.describe()
     );
     r.bound("depth", depth);
     r.bound("sizes", json!(sizes));
